@@ -635,3 +635,56 @@ Proof.
     unfold case_map_ok in C; repeat (apply andb_true_iff in C; destruct C as [C ?]);
     apply N.ltb_lt; assumption.
 Qed.
+
+(* ------------------------------------------------------------------ bundles, witnesses, non-vacuity *)
+Theorem ci_is_preorder a b c : bytes_ok a = true -> bytes_ok b = true -> bytes_ok c = true ->
+  exists x y z x', str_compare_i a b = Ok x /\ str_compare_i b c = Ok y /\ str_compare_i a c = Ok z /\
+    str_compare_i b a = Ok x' /\
+    sgn x' = CompOpp (sgn x) /\                                  (* total, antisymmetric in sign *)
+    (sgn x <> Gt -> sgn y <> Gt -> sgn z <> Gt) /\               (* transitive *)
+    (forall s, sgn x = s -> sgn y = s -> sgn z = s) /\
+    (x = 0%Z <-> ci_equiv a b).                                  (* equivalence = folded equality *)
+Proof.
+  intros Ba Bb Bc. pose proof (proj1 (Forall_bytes a) Ba) as Fa. pose proof (proj1 (Forall_bytes b) Bb) as Fb.
+  pose proof (proj1 (Forall_bytes c) Bc) as Fc.
+  destruct (compare_trans CaseInsensitive a b c Fa Fb Fc) as [x [y [z [E1 [E2 [E3 [T1 [T2 _]]]]]]]].
+  destruct (compare_antisym CaseInsensitive a b Fa Fb) as [x0 [x' [E4 [E5 A]]]].
+  destruct (ci_zero_iff_equiv a b Ba Bb) as [x1 [E6 Z]].
+  unfold str_compare_i. rewrite E1 in E4, E6. inversion E4; subst x0. inversion E6; subst x1.
+  exists x, y, z, x'. repeat split; try assumption; apply Z; assumption.
+Qed.
+
+(* the pre-fix tie-break  static_cast<int>(lsize - rsize)  — why the repair was needed *)
+Definition narrowed_tiebreak (lsize rsize : N) : Z := to_int32 (sub64 lsize rsize).
+Theorem narrowed_tiebreak_refuted :
+  exists lsize rsize, lsize < two64 /\ rsize < two64 /\ sgn (narrowed_tiebreak lsize rsize) <> (lsize ?= rsize).
+Proof. exists 0, 4294967296. vm_compute. repeat split; discriminate. Qed.
+Theorem narrowed_tiebreak_refuted_sign :
+  exists lsize rsize, lsize < rsize /\ rsize < two64 /\ sgn (narrowed_tiebreak lsize rsize) = Gt.
+Proof. exists 0, 2147483649. vm_compute. repeat split; reflexivity. Qed.
+
+(* the static compare with a zero-length common prefix and sizes differing by 2^32 *)
+Example static_compare_2_32 :
+  buf_compare4 EChar [] 0 [] 4294967296 = Ok (-1)%Z /\ buf_compare4 EChar [] 4294967296 [] 0 = Ok 1%Z /\
+  buf_compare4 EChar [] 0 [] 2147483649 = Ok (-1)%Z.
+Proof. vm_compute. repeat split; reflexivity. Qed.
+
+(* wchar_t: wmemcmp compares signed 32-bit values, so a unit >= 2^31 sorts BEFORE small units:
+   the unsigned-lexicographic claim is false for such wchar_t buffers (platform behaviour) *)
+Theorem wchar_unsigned_refuted :
+  exists a b z, buf_compare EWchar a b = Ok z /\ sgn z <> lex a b.
+Proof. exists [2147483648], [1], (-1)%Z. vm_compute. split; [reflexivity|discriminate]. Qed.
+
+(* non-vacuity of the hypotheses used above *)
+Example bytes_ok_inhabited : bytes_ok [0; 65; 97; 128; 255] = true.
+Proof. reflexivity. Qed.
+Example units_ok_inhabited : units_ok CaseInsensitive [0; 65; 97; 128; 255] /\ units_ok CaseSensitive [70000].
+Proof. split; [|exact I]. cbn [units_ok]. repeat constructor. Qed.
+Example zarg_ok_inhabited : zarg_ok CaseInsensitive (Some [97; 0; 98]) /\ zarg_ok CaseSensitive None.
+Proof. split; [|exact I]. split; [right; left; reflexivity|]. cbn [units_ok]. repeat constructor. Qed.
+Example elt_ok_inhabited : elt_ok EWchar [0; 2147483647] /\ elt_ok EChar32 [4294967295].
+Proof. split; [|exact I]. cbn [elt_ok]. repeat constructor. Qed.
+Example nul_free_inhabited : nul_free [97; 255].
+Proof. intros [H|[H|[]]]; discriminate. Qed.
+Example ci_equiv_inhabited : ci_equiv [65; 98; 0; 200] [97; 66; 0; 200] /\ [65; 98; 0; 200] <> [97; 66; 0; 200].
+Proof. split; [reflexivity|discriminate]. Qed.
